@@ -28,7 +28,8 @@ def one(e, base):
             open(p, 'w').write(out)
     elif e.get('generator') == 'rename-cxx-locals':
         env = dict(os.environ, OPTREE_VERIF_CACHE=os.path.join(base, 'cache'), OPTREE_VERIF_CACHE_KEEP='500')
-        r = subprocess.run([sys.executable, os.path.join(HERE, 'rename_cxx_locals.py'), d],
+        r = subprocess.run([sys.executable, os.path.join(HERE, 'rename_cxx_locals.py')] +
+                           (['--params'] if e.get('params') else []) + [d],
                            capture_output=True, text=True, env=env, cwd=VERIF)
         if r.returncode != 0:
             shutil.rmtree(d, ignore_errors=True)
